@@ -271,10 +271,8 @@ func (l *Ledger) setAccountMeta(a *Account, m map[string]string, at time.Time) {
 
 // SaveAccountMeta: metadata write on an account (creates it when missing).
 func (l *Ledger) SaveAccountMeta(addr string, m map[string]string, at time.Time, defaults map[string]string) {
-	a, ok := l.Accounts[addr]
-	if !ok {
-		a = l.touchAccount(addr, at, at, defaults)
-	}
+	// a metadata write is a usage dated at the write: it creates the account or lowers its first usage
+	a := l.touchAccount(addr, at, at, defaults)
 	l.setAccountMeta(a, m, at)
 }
 
